@@ -857,6 +857,14 @@ def r_cumul(E):
                                          f"relative to the size of the series")
     rel, fn = pm.find_function(ST, "Storage.update_storage_delta")
     res.instances += 1
+    # (the three flows gathered in a small record by a straight-line helper read as the flows themselves)
+    try:
+        from ..astutil import expand_records as _xr
+        from .units import module_record_classes as _mrc
+        _rel_st, _tree_st = pm.module_tree(ST)
+        fn = _xr(fn, pm.helper_finder("Storage"), None, _mrc(_tree_st))
+    except Exception:
+        pass
     terms = set()
     for n in ast.walk(fn):
         if isinstance(n, ast.Attribute) and isinstance(n.value, ast.Name) and n.value.id == "self" and n.attr in (
